@@ -85,7 +85,7 @@ CORPUS_DISCRETE = [
 	{'N': 3, 'h': [1, 6, 1], 'Ls': [2, 1, 1], 'p': 3, 'kind': 'P', 'mean': 5},
 	{'N': 2, 'h': [1, 1], 'Ls': [1, 1], 'p': 5, 'kind': 'P', 'mean': 2, 'cands': [[0, 5], [0, 0], [3, 0]]},     # an echelon level of exactly 0 is a level, not "missing"
 	{'N': 2, 'h': [1, 2], 'Ls': [1, 3], 'p': 20, 'kind': 'UD', 'lo': 8, 'hi': 12,              # unequal lead times, stage 2 evaluated below the internal grid
-	 'cands': [[12, 20], [12, 14], [6, 10]]},
+	 'cands': [[12, 20], [12, 14], [6, 10], [12, 70], [40, 90]]},          # ... and far ABOVE it (levels beyond the default inventory grid)
 	{'N': 3, 'h': [3, 2, 1], 'Ls': [1, 2, 1], 'p': 30, 'kind': 'CD', 'vals': [4, 5, 6, 7], 'probs': [0.2, 0.4, 0.3, 0.1],
 	 'cands': [[6, 12, 15], [6, 9, 10], [3, 4, 5]]},
 	{'N': 2, 'h': [1, 2], 'Ls': [1, 2], 'p': 9, 'kind': 'CD', 'vals': [6, 0, 9, 2], 'probs': [0.1, 0.5, 0.1, 0.3]},      # a demand list in no particular order
